@@ -1,30 +1,81 @@
 mod codec;
 mod util;
 
+use std::io::{BufRead, Write};
+
+/// Stateless engines: one op line in, one observation line out.
+/// Stateful engines keep their state in a boxed executor; a `reset`-style op starts a new case.
+pub trait Executor {
+    fn exec(&mut self, line: &str) -> String;
+}
+struct Stateless(fn(&str) -> String);
+impl Executor for Stateless {
+    fn exec(&mut self, line: &str) -> String {
+        (self.0)(line)
+    }
+}
+
+fn engine(name: &str) -> Option<(fn(&mut Vec<String>, u64, bool), Box<dyn Executor>)> {
+    match name {
+        "codec" => Some((codec::gen, Box::new(Stateless(codec::exec)))),
+        _ => None,
+    }
+}
+
 fn main() {
     let args: Vec<String> = std::env::args().collect();
     if args.len() < 3 {
-        eprintln!("usage: pvharness <engine> <outdir> [--thorough] [--seed N]");
+        eprintln!("usage: pvharness <engine> <outdir> [--thorough] [--seed N] [--replay OPSFILE] [--corpus DIR]");
         std::process::exit(2);
     }
-    let engine = args[1].as_str();
+    let ename = args[1].as_str();
     let outdir = args[2].as_str();
     let thorough = args.iter().any(|a| a == "--thorough");
-    let seed = args
-        .iter()
-        .position(|a| a == "--seed")
-        .and_then(|i| args.get(i + 1))
-        .and_then(|s| s.parse::<u64>().ok())
-        .unwrap_or(1);
+    let opt = |k: &str| args.iter().position(|a| a == k).and_then(|i| args.get(i + 1)).cloned();
+    let seed = opt("--seed").and_then(|s| s.parse::<u64>().ok()).unwrap_or(1);
     util::init();
-    let mut out = util::Out::new(outdir, engine);
-    match engine {
-        "codec" => codec::run(&mut out, seed, thorough),
-        _ => {
-            eprintln!("unknown engine {engine}");
-            std::process::exit(2);
+    let Some((gen, mut exec)) = engine(ename) else {
+        eprintln!("unknown engine {ename}");
+        std::process::exit(2);
+    };
+    let mut ops: Vec<String> = vec![];
+    if let Some(f) = opt("--replay") {
+        for l in std::io::BufReader::new(std::fs::File::open(f).unwrap()).lines() {
+            ops.push(l.unwrap());
         }
+    } else {
+        // committed corpus first (minimised past disagreements and finding witnesses)
+        if let Some(dir) = opt("--corpus") {
+            let mut files: Vec<_> = std::fs::read_dir(&dir)
+                .map(|d| d.filter_map(|e| e.ok()).map(|e| e.path()).collect())
+                .unwrap_or_default();
+            files.sort();
+            for f in files {
+                if f.extension().map(|e| e == "ops").unwrap_or(false) {
+                    for l in std::io::BufReader::new(std::fs::File::open(f).unwrap()).lines() {
+                        let l = l.unwrap();
+                        if !l.is_empty() && !l.starts_with('#') {
+                            ops.push(l);
+                        }
+                    }
+                }
+            }
+        }
+        gen(&mut ops, seed, thorough);
+    }
+    let mut out = util::Out::new(outdir, ename);
+    // side channel: announce progress so a hang can be attributed (orchestrator watchdog)
+    let mut progress = std::fs::File::create(format!("{outdir}/{ename}.progress")).unwrap();
+    for (i, op) in ops.iter().enumerate() {
+        if i % 4096 == 0 {
+            let _ = writeln!(progress, "{i}");
+        }
+        let obs = match util::guarded(|| exec.exec(op)) {
+            Some(o) => o,
+            None => "panic:harness".to_string(),
+        };
+        out.put(op, &obs);
     }
     let n = out.finish();
-    println!("engine={engine} ops={n}");
+    println!("engine={ename} ops={n}");
 }
